@@ -1293,3 +1293,4 @@ package mqtt
 //@ ensures C32-lock-released-on-return: p.RWMutex.lheld == 0
 // verif:func mqtt.NewInflights trusted
 //@ ensures r0 != nil && fresh(r0)
+// verif:func mqtt.Client.StopCause trusted pure
